@@ -130,9 +130,47 @@ func runComponent(rt *rapid.T) {
 	for i := range sentKinds {
 		sentKinds[i] = map[[2]int64]bool{}
 	}
+	// An observer with the cluster's public keys (a production component on a network of its own, never started,
+	// never proposing) is handed a copy of every frame a member sends: all members are honest here (they only
+	// stop), so the receive path must take every one of them — "no message sent by an honest member is ever
+	// rejected by another honest member", at the wire level. Its receive buffer holds 100 messages; once it is
+	// full the hand-over ends with the context's timeout, which is not a rejection.
+	observer, err := NewConsensus(ctx, bn, memnet.New().Host(peers[0].ID), new(p2p.Sender), peers, compKey(0), stubDeadliner{}, func(core.Duty) bool { return true }, func(*pbv1.SniffedConsensusInstance) {}, false)
+	if err != nil {
+		panic("HARNESS-ERROR: NewConsensus (observer): " + err.Error())
+	}
+	var rejected []string
+	observe := func(fr *memnet.Frame, src, dst int) {
+		m := new(pbv1.QBFTConsensusMsg)
+		if fr.Decode(m) != nil {
+			mu.Lock()
+			rejected = append(rejected, fmt.Sprintf("%d->%d: frame does not parse", src, dst))
+			mu.Unlock()
+			return
+		}
+		wg.Add(1)
+		go func() {
+			defer wg.Done()
+			octx, ocancel := context.WithTimeout(ctx, 2*time.Millisecond)
+			defer ocancel()
+			_, _, herr := observer.handle(octx, fr.From, m)
+			if herr != nil && octx.Err() == nil {
+				mu.Lock()
+				rejected = append(rejected, fmt.Sprintf("+%dms %d->%d type %d round %d: %v", time.Since(t0)/time.Millisecond, src, dst, m.GetMsg().GetType(), m.GetMsg().GetRound(), herr))
+				mu.Unlock()
+			}
+		}()
+	}
+	seenFrame := map[string]bool{}
 	net.OnFrame = func(fr *memnet.Frame) {
 		mu.Lock()
 		src, dst := idxOf[fr.From], idxOf[fr.To]
+		if key := fmt.Sprintf("%d/%x", src, fr.Req); !seenFrame[key] && !crashed[src] {
+			seenFrame[key] = true // one copy of each broadcast is enough
+			mu.Unlock()
+			observe(fr, src, dst)
+			mu.Lock()
+		}
 		{
 			var m pbv1.QBFTConsensusMsg
 			typ, rnd := int64(-1), int64(-1)
@@ -269,6 +307,9 @@ func runComponent(rt *rapid.T) {
 	wg.Wait()
 	synctest.Wait()
 	desc := fmt.Sprintf("n=%d duty=%v faulty(stop after frames)=%v crashed=%v leaders r1..3=%d,%d,%d", n, duty, crashAfter, crashedList, leader(duty, 1, n), leader(duty, 2, n), leader(duty, 3, n))
+	if len(rejected) > 0 {
+		rt.Fatalf("HONEST MESSAGE REJECTED (component): a production receive path refused a message that a member of an all-honest (crash-only) run sent: %s; %s", rejected[0], desc)
+	}
 	if !ok {
 		var missing []int
 		for i := 0; i < n; i++ {
